@@ -1,1 +1,2 @@
 import PdeVerif.Drv.All
+import PdeVerif.Props.C09
